@@ -326,8 +326,18 @@ nextSegment:
 			return InvalidIndex
 		}
 
-		// Search current scope for an entity matching the next name segment
+		// Search current scope for an entity matching the next name segment.
+		// Unless the scope is a scope block, its contents live in a nested
+		// scope block.
 		scopeObj := tree.ObjectAt(scopeIndex)
+		if scopeObj.opcode != pOpIntScopeBlock {
+			for nextIndex := scopeObj.firstArgIndex; nextIndex != InvalidIndex; nextIndex = tree.ObjectAt(nextIndex).nextSiblingIndex {
+				if obj := tree.ObjectAt(nextIndex); obj.opcode == pOpIntScopeBlock {
+					scopeObj = obj
+					break
+				}
+			}
+		}
 
 	checkNextSibling:
 		for nextIndex := scopeObj.firstArgIndex; nextIndex != InvalidIndex; nextIndex = tree.ObjectAt(nextIndex).nextSiblingIndex {
